@@ -115,7 +115,7 @@ def gen_plan(rng, tier, idx, opts):
                         o["ext"]["dtype"] = rng.choice(["int", "float32"])
                 ops.append(o)
         elif r < 0.42:
-            ops.append({"op": "noise_var", "v": rng.choice([None, 0.0, 1e-3, 0.5, 2.0])})
+            ops.append({"op": "noise_var", "v": rng.choice([None, 0.0, 1e-3, 0.5, 2.0, -1.0])})
         elif r < 0.50:
             if rng.random() < 0.25:
                 ops.append({"op": "post_filter", "seed": None})
@@ -367,8 +367,20 @@ def execute(plan):
                                 res["violations"][-1]["signature"]["view"] = "aliasing"
                                 m.raw = old_raw
                 elif kind == "noise_var":
-                    ch.noise_var = op["v"]
-                    m.noise_var = op["v"]
+                    if op["v"] is not None and op["v"] < 0:
+                        # an inadmissible value: rejected, and the variance in force stays what it was
+                        try:
+                            ch.noise_var = op["v"]
+                            viol("noise", step, "a negative noise variance (%r) was accepted" % op["v"])
+                            break
+                        except (AssertionError, ValueError):
+                            bump(res["faults"], "rejected-setter")
+                        if ch.noise_var != m.noise_var:
+                            viol("noise", step, "the rejected noise variance %r changed noise_var to %r" % (op["v"], ch.noise_var))
+                            break
+                    else:
+                        ch.noise_var = op["v"]
+                        m.noise_var = op["v"]
                 elif kind == "post_filter":
                     if m.raw is None:
                         continue
